@@ -116,6 +116,33 @@ def shape_txt(sh) -> str:
     return "_" if len(sh) == 0 else "x".join(str(k) for k in sh)
 
 
+def alias_dtypes(d):
+    """equal dtypes that are other Python objects / other spellings"""
+    import pickle
+    d = np.dtype(d)
+    out = [("same", d), ("pickled", pickle.loads(pickle.dumps(d)))]
+    if d.names:
+        out += [("field-list", np.dtype([(n, d.fields[n][0].str) for n in d.names])), ("descr", np.dtype(d.descr)),
+                ("dict", np.dtype({"names": list(d.names), "formats": [d.fields[n][0] for n in d.names]}))]
+    else:
+        out += [("type", d.type), ("str", d.str), ("name", d.name), ("char", d.char)]
+    return out
+
+
+def alias_arrays(v):
+    """the same array carrying an equal dtype that is another object"""
+    import pickle
+    out = [("same", v)]
+    if isinstance(v, np.ndarray) and v.dtype.names:
+        eq = np.dtype([(n, v.dtype.fields[n][0].str) for n in v.dtype.names])
+        out += [("view-equal-dtype", v.view(eq)), ("pickled", pickle.loads(pickle.dumps(v)))]
+        if v.flags.c_contiguous and v.ndim:
+            out.append(("frombuffer", np.frombuffer(v.tobytes(), eq).reshape(v.shape)))
+    elif isinstance(v, np.ndarray):
+        out.append(("pickled", pickle.loads(pickle.dumps(v))))
+    return out
+
+
 def run(ctx):
     import warnings
     from nitypes.complex import convert_complex, ComplexInt32DType
@@ -312,6 +339,24 @@ def run(ctx):
                             break
                         if src == req and not np.array_equal(np.asarray(o), np.asarray(v)):
                             ctx.violation(what="same-dtype request changed the values", observed=str(o), required=str(v))
+                        # a dtype is what it describes, not which Python object describes it: the same call with an equal dtype
+                        # spelled another way (type object, string, equivalent field list, a dtype that went through pickle) and
+                        # with the array re-typed by an equal dtype object gives the same result
+                        for how_req, req2 in alias_dtypes(req):
+                            for how_arr, v2 in alias_arrays(v):
+                                if how_req == "same" and how_arr == "same":
+                                    continue
+                                if (n_lay + len(how_req) + len(how_arr)) % (3 if ctx.quick else 1):
+                                    continue          # quick tier: a third of the combinations
+                                r2 = outcome(convert_complex, req2, v2)
+                                ctx.count("dtype-spelling", how_req + "/" + how_arr)
+                                if r2[0] != "ok" or np.dtype(r2[1].dtype) != req or np.shape(r2[1]) != np.shape(o) or \
+                                        np.asarray(r2[1]).tobytes() != np.ascontiguousarray(o).tobytes():
+                                    ctx.violation(what="result depends on which object spells the dtype", source=dt_name(src), requested=dt_name(req),
+                                                  requested_as=how_req, array_dtype_as=how_arr, shape=str(shape), layout=lay,
+                                                  observed=(show(r2)[:200] if r2[0] != "ok" else f"{r2[1].dtype} {np.asarray(r2[1]).ravel()[:4]}"),
+                                                  required=f"{req} {np.asarray(o).ravel()[:4]}")
+                                    break
                         if np.asarray(v).size <= 12:
                             lines.append(f"cconv {dt_name(req)} {dt_name(src)} {shape_txt(np.shape(v))} {enc_arr(v)}")
                             expect.append(f"ok {dt_name(req)} {shape_txt(np.shape(o))} {enc_arr(o)}")
